@@ -126,6 +126,8 @@ def run_case(ctx, case):
     model, edits = case["model"], case["edits"]
     if case.get("twins"):
         model = projgen.add_twins(model, case["twins"])
+    if case.get("toolchains") is not None:
+        model = projgen.add_toolchains(model, case["toolchains"])
     base = ctx.tmpdir()
     try:
         variants = [("original", model)]
@@ -226,7 +228,8 @@ def run_case(ctx, case):
 def case_st(quick):
     return st.fixed_dictionaries({"model": projgen.model_st(2, 6 if quick else 7, richness=1),
                                   "edits": st.lists(id_edit_st, min_size=3, max_size=6 if quick else 10),
-                                  "twins": st.one_of(st.none(), projgen.twins_st, projgen.twins_st)})
+                                  "twins": st.one_of(st.none(), projgen.twins_st, projgen.twins_st),
+                                  "toolchains": st.sampled_from([None, None, 0, 1, 2, 3, 4, 5])})
 
 def shard(ctx):
     run_hypothesis(ctx, case_st(ctx.quick()), lambda c: run_case(ctx, c), ctx.n(1600, 16000), shrink=False, minimize=("edits",))
